@@ -56,7 +56,7 @@ theorem genNamed_good (hS : schemaOK S = true) (henv : EnvOK env) {n : Name} {td
     (∀ tds, NamesHyp S tds → NameInv S tds st → NameInv S tds st') ∧
     ((∀ d ∈ st'.decls, d ∈ env) →
       (∀ frag, FragHyp S ft env frag → LevelGood S env frag td sels ty) ∧
-      (FragNames ft (env.map Decl.name) → enumConstsOK S = true →
+      (FragNames ft (env.map Decl.name) → enumValuesOK S = true →
         tyOK (env.map Decl.name) ty = true ∧ (StOK (env.map Decl.name) st → StOK (env.map Decl.name) st'))) := by
   unfold genNamed at hgen
   obtain ⟨hmono, hinv', hnm, hsem0⟩ := level_statement hS henv (fragHyp_noFrag S ft env) (sizeOf sels) sels (Nat.le_refl _)
@@ -87,7 +87,7 @@ theorem processDefs_good (hS : schemaOK S = true) (henv : EnvOK env) :
       (∀ df ∈ defs, TypedefIn (processDefs S ft defs st).2.decls df) ∧
       ((∀ d ∈ (processDefs S ft defs st).2.decls, d ∈ env) →
         (∀ frag, FragHyp S ft env frag → ∀ df ∈ defs, DefGood S env frag df) ∧
-        (FragNames ft (env.map Decl.name) → enumConstsOK S = true →
+        (FragNames ft (env.map Decl.name) → enumValuesOK S = true →
           StOK (env.map Decl.name) st → StOK (env.map Decl.name) (processDefs S ft defs st).2)) := by
   intro defs
   induction defs with
@@ -218,7 +218,7 @@ theorem processDocs_good (hS : schemaOK S = true) (henv : EnvOK env) :
       (∀ doc ∈ docs, ∀ df ∈ doc.defs, TypedefIn (processDocs S docs st).2.decls df) ∧
       ((∀ d ∈ (processDocs S docs st).2.decls, d ∈ env) →
         (∀ doc ∈ docs, ∀ frag, FragHyp S (fragTypesOf doc.defs) env frag → ∀ df ∈ doc.defs, DefGood S env frag df) ∧
-        ((∀ doc ∈ docs, FragNames (fragTypesOf doc.defs) (env.map Decl.name)) → enumConstsOK S = true →
+        ((∀ doc ∈ docs, FragNames (fragTypesOf doc.defs) (env.map Decl.name)) → enumValuesOK S = true →
           StOK (env.map Decl.name) st → StOK (env.map Decl.name) (processDocs S docs st).2)) := by
   intro docs
   induction docs with
